@@ -299,6 +299,22 @@ def _run(c, col):
             prog.sumarise_vcf_record(data)
             rec1 = data.format_vcf_record()
             after = snapshot_state(prog)
+            if prog_name != "assemble":
+                # a DIFFERENT locus in between (reference masked, other prior): whatever it leaves behind must not reach the next one
+                other = _Locus()
+                other.mask_reference_allele = True
+                other.frequencies = rnp.array([0.0, 0.5, 0.5])
+                d_o = prog._locus_data(other, {s: [] for s in samples})
+                for s in samples:
+                    d_o.read_calls[s] = rnp.zeros((N_READS[s], 1), dtype=int)
+                    d_o.read_dists[s] = reads[s]
+                    d_o.read_counts[s] = counts[s]
+                try:
+                    prog.call_sample_genotypes(d_o)
+                    prog.sumarise_vcf_record(d_o)
+                    d_o.format_vcf_record()
+                except Exception:  # the in-between locus is not the subject
+                    pass
             data2 = prog._locus_data(locus, {s: [] for s in samples})
             for s in samples:
                 data2.read_calls[s] = rnp.zeros((N_READS[s], 1), dtype=int)
@@ -332,9 +348,9 @@ def _run(c, col):
                          desc="processing a locus changed state that outlives it: %s" % "; ".join(changed[:3]))
             elif rec1 != rec2:
                 col.fail(site, "history-dependence", shape=dict(prog=prog_name), witness=dict(prog=prog_name, order=list(order), first=rec1[:300], second=rec2[:300]),
-                         desc="the same locus processed twice by one program object gives two different records")
+                         desc="the same locus processed again by one program object (another locus in between) gives a different record")
             else:
-                col.ok("%s: a locus leaves the program object and every module-level container unchanged, and processing it again gives the identical record" % prog_name)
+                col.ok("%s: a locus leaves the program object and every module-level container unchanged, and processing it again after a different (reference-masked) locus gives the identical record" % prog_name)
             continue
         err, claims = verify(prog_name, F, reads, counts, gpm, log, samples, out, gts,
                              eqr=lambda a, b: E.real_term(a) == (b if z3.is_expr(b) else z3.RealVal(repr(b))), num=lambda x: E.to_float(x))
